@@ -117,6 +117,13 @@ def gen_small(rw):
         tail = rw.choice([[(st, None)], [("SWAP1", None), (st, None)], [("DUP1", None), (st, None)]])
         pad = [("SWAP1", None), ("SWAP1", None)] if rw.random() < 0.4 else []
         return [(ld, None)] + mid + pad + tail
+    if r < 0.4:
+        # reuse bait: an expensive value used twice (DUP is cheap, recomputing is not: the weights must say so)
+        exp = rw.choice([[("SLOAD", None)], [("DUP1", None), ("BALANCE", None)], [("PUSH", "20"), ("SWAP1", None), ("KECCAK256", None)],
+                         [("EXTCODESIZE", None)], [("DUP2", None), ("EXP", None)], [("BLOCKHASH", None)], [("MLOAD", None)]])
+        use = rw.choice([[("DUP1", None), ("ADD", None)], [("DUP1", None), ("SWAP2", None), ("POP", None)], [("DUP1", None), ("DUP3", None), ("LT", None)],
+                         [("DUP1", None)], [("DUP1", None), ("MUL", None)]])
+        return exp + use
     L = rw.choice([2, 3, 3, 4, 4, 5])
     return B.gen_block(rw, length=L, depth=rw.choice([0, 1, 2, 2, 3]), pseudo=False, ending=False, splits=False,
                        profile=rw.choice(["plain", "stack", "stack", "rules", "memory"]))
